@@ -116,13 +116,13 @@ def evaluate(ctx, case, obs, answers):
     ctx.count("function-failures", nfail)
     ctx.count("ops-with-exception", sum(1 for o in obs if o["err"]))
     ctx.case({"mode": case["mode"], "nodes": case["nodes"], "ops": case["ops"]}, nontrivial=nfail > 0 or any(o["err"] for o in obs))
-    probs = oracle(case, obs)
+    probs = oracle(case, obs) + graphcheck.oracle_nodup(case, obs)
     if probs:
         sig, what = probs[0]
 
         def still(trial):
             o2 = graphcheck.rerun(trial, flavour=case.get("flavour", "future"))
-            return any(p[0] == sig for p in oracle(trial, o2))
+            return any(p[0] == sig for p in oracle(trial, o2) + graphcheck.oracle_nodup(trial, o2))
         ctx.failure(sig, what, graphcheck.shrink(case, still), oracle=sig)
     if answers is not None:
         diff = graphcheck.compare(case, obs, answers, ASPECTS)
